@@ -160,6 +160,11 @@ def eval_format(sim, fmt):
 
 
 def _eval_assign_inner(sim, lhs, lhs_start, rhs, rhs_len):
+    # Clip the assigned window to the target at every level, like an assignment in a circuit does.
+    if lhs_start >= len(lhs):
+        return
+    if lhs_start + rhs_len > len(lhs):
+        rhs_len = len(lhs) - lhs_start
     if isinstance(lhs, Operator) and lhs.operator in ("u", "s"):
         _eval_assign_inner(sim, lhs.operands[0], lhs_start, rhs, rhs_len)
     elif isinstance(lhs, Signal):
